@@ -284,6 +284,10 @@ def confirm(prop, v):
             if res.get(n0 + 12 + j) != res.get(n0 + 19 + j): bad.append('id after clear %s vs fresh %s' % (res.get(n0 + 12 + j), res.get(n0 + 19 + j)))
         d1, d2 = dump_at(n0 + 17), dump_at(n0 + 24)
         if not (d1 and d2 and replay.same_state(d1, d2)): bad.append('continuation after clear differs from fresh arena')
+        # clear() keeps the capacity, also when the arena had room to spare (twice in a row as well)
+        for c_ in (N + 5, 64):
+            lines += ['arena_with_capacity %d' % c_] + replay.construct_script(pre) + ['clear', 'capacity_ge %d' % c_, 'clear', 'capacity_ge %d' % c_]
+        lines += ['arena_new'] + replay.construct_script(pre) + ['reserve 100', 'clear', 'capacity_ge %d' % (N + 100)]
         # with_capacity(n) for small and large n
         for n_ in (0, 1, 5, 4096, 4097, 100000):
             lines += ['arena_with_capacity %d' % n_, 'capacity_ge %d' % n_, 'count']
